@@ -27,8 +27,21 @@ ASSUMPTIONS = [
 SHARD_LIMIT = {"quick": 900, "thorough": 10800}
 
 
+def family(tier):
+    """the shared deployment family plus deployments only this check needs: a Write handler on element A that defers
+    every client write and never confirms it (the device publishes nothing: no client may show the requested value)"""
+    fam = list(DP.family(tier))
+    for variant in ("text", "number-printf", "switch-AnyOfMany", "switch-OneOfMany", "blob"):
+        fam.append(dict(variant=variant, vec_enabled=True, grp_enabled=True, depth=1, ndev=2, ngroups=2, write_veto=True))
+    return fam
+
+
+def deployment_of(p):
+    return DP.deployment(**{k: v for k, v in p.items() if k != "write_veto"})
+
+
 def shards(tier, seed):
-    fam = DP.family(tier)
+    fam = family(tier)
     return [(tier, i) for i in range(len(fam))]
 
 
@@ -36,7 +49,7 @@ def value_of(kind, i):
     from indi.device.values import BLOB
 
     if kind == "text":
-        return ("v1", "<&>\"q'")[i]
+        return ("v1 \u00e9\u00b0 \u2603", "<&>\"q'")[i]
     if kind == "number":
         return (12.5, -0.5)[i]
     if kind == "switch":
@@ -55,7 +68,7 @@ def ops_for(p):
         out += [("cwrite", "A", 0), ("cwrite", "B", 1)]
     if kind == "number":
         # one submit naming a valid element and one whose value cannot be applied: what was applied must be published
-        out += [("cwrite-partly-bad",)]
+        out += [("cwrite-partly-bad",), ("cwrite-refused",)]
     return out
 
 
@@ -64,9 +77,11 @@ class Run:
         from mc.core import e2e
 
         self.p = p
-        self.specs = DP.deployment(**p)
+        self.specs = deployment_of(p)
         # deployments with read_refresh: a plain Read handler refreshes element A "from the hardware" whenever it is read
         hf = DM.read_refresh_handlers(p["variant"].split("-")[0]) if p.get("read_refresh") else None
+        if p.get("write_veto"):
+            hf = DM.write_veto_handlers(p["variant"].split("-")[0])
         self.w = e2e.World(self.specs, handlers=hf)
         self.snoop = snoop
         self.kind = p["variant"].split("-")[0]
@@ -154,12 +169,21 @@ class Run:
             cv["A"].value = "42.5"
             cv["B"].value = "9" * 400
             cv.submit()
+        elif o == "cwrite-refused":
+            # a write the device cannot apply at all (valid number syntax, no float can hold it): it answers nothing,
+            # so the writer's own view must keep showing the device's value
+            d = self.client.get_device("DEV0")
+            cv = d.get_vector("TGT") if d else None
+            if cv is None or cv.get_element("B") is None:
+                return "skipped"
+            cv["B"].value = "1" + "0" * 400
+            cv.submit()
         elif o == "cwrite":
             d = self.client.get_device("DEV0")
             cv = d.get_vector("TGT") if d else None
             if cv is None or cv.get_element(op[1]) is None:
                 return "skipped"
-            val = {"text": ("cw1", "cw2"), "number": ("3.5", "1:30"), "switch": ("On", "Off")}.get(self.kind)
+            val = {"text": ("cw1 \u00fc\u2603", "cw2"), "number": ("3.5", "1:30"), "switch": ("On", "Off")}.get(self.kind)
             if self.kind == "blob":
                 from indi.device.values import BLOB
 
@@ -368,7 +392,7 @@ def run_history(p, path, snoop, delivery="whole", cuts=None, chooser=None, judge
 
 def run_shard(shard):
     tier, i = shard
-    p = DP.family(tier)[i]
+    p = family(tier)[i]
     depth = 2 if tier == "quick" else 3
     res = {"states": 0, "transitions": 0, "executions": 0, "violations": [], "samples": [], "counters": {}}
     sig = {}
@@ -453,7 +477,7 @@ def finish(tier, seed, m):
         "transitions": m["transitions"],
         "traces_validated_against_impl": m["executions"],
         "end_to_end_executions": m["executions"],
-        "deployments": len(DP.family(tier)),
+        "deployments": len(family(tier)),
         "samples": m["samples"][:1],
         "exhaustive": True,
         "explanation": "states = distinct (driver truth, client view) states reached per deployment within the history depth; every history is executed end to end from a fresh world; delivery schedules as stated",
